@@ -187,8 +187,6 @@ def enum_shard(st, shard, nshards, payload):
                     try:
                         r = apply_op(op, fs[f], fs[g])
                         p = inspect(r, exp, variables, order, 'f %s g' % op)
-                        if p is None and r.root is not fs[exp].root:
-                            p = 'f %s g is not the canonical diagram of its function' % op
                     except Exception as e:
                         p = 'raised %s' % type(e).__name__
                     st.bump('root relation ' + rel)
@@ -226,9 +224,8 @@ def run(ctx):
                 'variable (in or out of the support) and b in {0,1,False,True}.  Oracle: diagram '
                 'walked on every assignment = pointwise operation on the tables; every reachable '
                 'node tests a variable strictly before its children\'s and has distinct children; '
-                'variables() = variables on reachable nodes = semantic support; in the enumerated '
-                'scope the result must also BE the node of the separately parsed function '
-                '(canonicity); RuntimeError exactly for different orderings / outside variables. '
+                'variables() = variables on reachable nodes = semantic support (sharing of equal '
+                'diagrams is C16\'s property and is not asserted here); RuntimeError exactly for different orderings / outside variables. '
                 'Non-trivial = both operand roots non-terminal and the result not constant; the '
                 'three root relations A<B, A=B, A>B are counted.')
     if ctx.thorough:
